@@ -94,10 +94,24 @@ def build_bins():
 
 # ---------------------------------------------------------------- harness runs
 
-def run_oalv(sub, cases, timeout_per_case=60.0, stack_mb=None, chunk=None):
+MAX_HANGS = 3
+_HANGS = {}          # subcommand -> hangs seen in this check run (shared by parallel workers)
+
+
+def _limits():
+    import resource
+    try:
+        resource.setrlimit(resource.RLIMIT_AS, (6 << 30, 6 << 30))
+    except (ValueError, OSError):
+        pass
+
+
+def run_oalv(sub, cases, timeout_per_case=20.0, stack_mb=None, chunk=None):
     """Runs cases through `oalv <sub>`; returns one result per case.
     A case that aborts the process (stack overflow, abort) yields
-    {"outcome":"abort","signal":..}; a case that hangs yields {"outcome":"hang"}.
+    {"outcome":"abort","signal":..}; a case that hangs yields {"outcome":"hang"}
+    (normal cases take milliseconds; the limit is 20 s).  After MAX_HANGS hangs the
+    remaining cases are not run ({"outcome":"skipped"}) - the hang is the finding.
     The process is restarted after the offending case."""
     build_harness()
     results = []
@@ -107,11 +121,14 @@ def run_oalv(sub, cases, timeout_per_case=60.0, stack_mb=None, chunk=None):
     if stack_mb:
         env["OALV_STACK_MB"] = str(stack_mb)
     while i < n:
+        if _HANGS.get(sub, 0) >= MAX_HANGS:
+            results.extend({"outcome": "skipped"} for _ in range(n - i))
+            break
         batch = cases[i:]
         inp = "".join(json.dumps(c) + "\n" for c in batch)
-        budget = max(60.0, timeout_per_case * 2 + 0.05 * len(batch))
+        budget = max(30.0, timeout_per_case + 0.02 * len(batch))
         p = subprocess.Popen([OALV, sub], stdin=subprocess.PIPE, stdout=subprocess.PIPE,
-                             stderr=subprocess.DEVNULL, env=env)
+                             stderr=subprocess.DEVNULL, env=env, preexec_fn=_limits)
         try:
             out, _ = p.communicate(inp.encode(), timeout=budget)
             hung = False
@@ -130,10 +147,11 @@ def run_oalv(sub, cases, timeout_per_case=60.0, stack_mb=None, chunk=None):
         i += len(got)
         if len(got) >= len(batch):
             break
-        # the process died or hung on case i
+        # the process died or ran out of time on case i
         if hung:
-            # decide whether case i alone hangs
             alone = _run_single(sub, cases[i], timeout_per_case, env)
+            if alone.get("outcome") == "hang":
+                _HANGS[sub] = _HANGS.get(sub, 0) + 1
             results.append(alone)
         else:
             rc = p.returncode
@@ -146,7 +164,7 @@ def run_oalv(sub, cases, timeout_per_case=60.0, stack_mb=None, chunk=None):
 
 def _run_single(sub, case, timeout, env):
     p = subprocess.Popen([OALV, sub], stdin=subprocess.PIPE, stdout=subprocess.PIPE,
-                         stderr=subprocess.DEVNULL, env=env)
+                         stderr=subprocess.DEVNULL, env=env, preexec_fn=_limits)
     try:
         out, _ = p.communicate((json.dumps(case) + "\n").encode(), timeout=timeout)
     except subprocess.TimeoutExpired:
